@@ -21,7 +21,7 @@ package strategy
 //@   ensures[C20] sample_value: callarg("core.MetricSampleListener.AddSample", 0, 0) == float64(s.inFlight)
 //@   ensures[C20] token_count: as(token, "*core.StaticStrategyToken").inFlightCount == int(s.inFlight)
 //@   assigns s.inFlight
-//@   owns[C17]
+//@   owns[C01,C17]
 //@   safety[C01]
 
 //@ func (*PreciseStrategy).releaseHandler
@@ -30,7 +30,7 @@ package strategy
 //@   ensures[C02] one_unit: s.inFlight == old(s.inFlight) - 1
 //@   ensures[C01,C02] limit_unchanged: s.limit == old(s.limit)
 //@   assigns s.inFlight
-//@   owns[C17]
+//@   owns[C01,C17]
 
 //@ func (*PreciseStrategy).SetLimit
 //@   refines[C01,C05] core.Strategy.SetLimit with busy = int(s.inFlight); limit = int(s.limit)
@@ -39,7 +39,7 @@ package strategy
 //@   ensures[C01,C05] floor: s.limit == max(1, limit)
 //@   ensures[C01,C02] revokes_nothing: s.inFlight == old(s.inFlight)
 //@   assigns s.limit
-//@   owns[C17]
+//@   owns[C01,C17]
 
 //@ func (*PreciseStrategy).GetLimit
 //@   ensures[C20] value: result == int(s.limit)
@@ -81,7 +81,7 @@ package strategy
 //@   rensures[C01,C02] one_unit_atomically: ok ==> ncalls("atomic.Add") == 1 && callarg("atomic.Add", 0, 1) == 1 && ncalls("atomic.Store") == 0 && *s.inFlight <= seen + 1 && *s.inFlight <= lim
 //@   rensures[C02] refusal_writes_nothing: !ok ==> ncalls("atomic.Add") == 0 && ncalls("atomic.Store") == 0
 //@   assigns *s.inFlight
-//@   owns[C17]
+//@   owns[C01,C17]
 
 //@ func (*SimpleStrategy).TryAcquire$1
 //@   ensures[C02] closure: isfunc(result, "(*strategy.SimpleStrategy).TryAcquire$1$1") && *captured(result, "(*strategy.SimpleStrategy).TryAcquire$1$1", 0) == ref
@@ -90,8 +90,8 @@ package strategy
 //@ func (*SimpleStrategy).TryAcquire$1$1
 //@   requires cell: ref != nil
 //@   requires held_token: *ref >= 1
-//@   ensures[C02] one_unit: *ref == old(*ref) - 1
-//@   ensures[C02] atomically: ncalls("atomic.Add") == 1
+//@   ensures[C01,C02] one_unit: *ref == old(*ref) - 1
+//@   ensures[C01,C02] atomically: ncalls("atomic.Add") == 1
 //@   assigns *ref
 
 //@ func (*SimpleStrategy).SetLimit
@@ -101,7 +101,7 @@ package strategy
 //@   ensures[C01,C05] floor: *s.limit == max(1, limit)
 //@   ensures[C01,C02] revokes_nothing: *s.inFlight == old(*s.inFlight)
 //@   assigns *s.limit
-//@   owns[C17]
+//@   owns[C01,C17]
 
 //@ func (*SimpleStrategy).GetLimit
 //@   maintains s
